@@ -473,6 +473,9 @@ func c23Classify(es []PrincipalRules, defStr string, q c23Req, dup, denyHit, all
 		}
 		return "none"
 	}
+	if key, ok := c23FoldExplains(es, defStr, q, got); ok {
+		return key // the decision a case-insensitive comparison of rule names would give (only possible where names differ in letter case: family F3)
+	}
 	if dup {
 		// duplicate entries for the principal: is "the last entry replaces the earlier ones" what happened?
 		if last, _ := c23RefDecide(Config{DefaultPolicy: defStr, Principals: c23LastEntryOnly(es, q.Principal)}, q); last == got {
@@ -561,11 +564,12 @@ func TestVerifC23(t *testing.T) {
 	rep := vh.New(t, "C23")
 	defer rep.Finish()
 	c23Init()
-	rep.Rule = "case = (ACL configuration, request) decided by the real NewAuthorizer+Allows; configurations = every member of two families (F1: full 45-rule alphabet, any shape of <=2 entries and <=2 rules per list with a bounded total number of rules; F2: every shape up to 2 entries x 2 allow x 2 deny rules over a core rule alphabet) x 3 default policies; each configuration is also compared with itself minus each single rule (monotonicity); signature = (60-bit decision vector, default, which of deny/allow rules decide, duplicate principal); non-trivial = at least one request is decided by a deny or an allow rule rather than the default"
+	rep.Rule = "case = (ACL configuration, request) decided by the real NewAuthorizer+Allows; configurations = every member of two families (F1: full 45-rule alphabet, any shape of <=2 entries and <=2 rules per list with a bounded total number of rules; F2: every shape up to 2 entries x 2 allow x 2 deny rules over a core rule alphabet) x 3 default policies; F3: one entry for p with <=2 rules over rule names {a,A,a*,A*,ab,Ab,aB} decided for request names {a,A,ab,Ab,aB,AB,b,B}, i.e. names that differ only in letter case on either side, default deny/allow, decision oracle only); each configuration of F1/F2 is also compared with itself minus each single rule (monotonicity); signature = (60-bit decision vector, default, which of deny/allow rules decide, duplicate principal); non-trivial = at least one request is decided by a deny or an allow rule rather than the default (F3: and some request names a resource that a rule of p names up to letter case only)"
 	rep.Assumptions = []string{
 		"principal names are compared after trimming surrounding blanks (the config loader trims entry names); a blank request principal is an unknown principal for entries named p/q",
 		"an omitted rule name (\"\") means any name, as the repository's own unit test asserts; default_policy other than allow (incl. empty) means deny",
 		"only enabled configurations are considered (Enabled=false switches ACLs off)",
+		"resource names are case-sensitive (the store, the logs and the coordinator keep names differing in letter case apart): an exact rule name matches by byte equality, a prefix rule by byte prefix; action and resource-type words of a rule are matched ignoring case",
 	}
 	var rp c23Replay
 	if ok, err := vh.LoadReplay(&rp); ok {
@@ -643,6 +647,15 @@ func TestVerifC23(t *testing.T) {
 			results = append(results, r)
 			items = append(items, c23Item{Fam: f2})
 		}
+	}
+	if !capped {
+		// family F3: rule names and request names that differ only in letter case
+		f3 := &c23Family{Name: "F3-letter-case", MaxTotal: 2}
+		results = append(results, c23RunCase(f3))
+		items = append(items, c23Item{Fam: f3})
+		rep.SetInfo("F3", map[string]any{"rule_actions": c23CaseRuleActions, "rule_resources": c23CaseRuleResources, "rule_names": c23CaseRuleNames, "rules": len(f3.Rules),
+			"entries": "one entry for p", "max_rules_total": f3.MaxTotal, "default_policies": c23CaseDefaults,
+			"request_principals": c23CaseReqPrincipals, "request_actions": c23ReqActions, "request_resources": c23ReqResources, "request_names": c23CaseReqNames})
 	}
 	if capped {
 		rep.Cap("deadline reached before all (family, shape, default) items were enumerated")
